@@ -287,14 +287,18 @@ class Mesh:
             dmin = np.min(self.doflocs[d])
             ix = self.facets_satisfying(lambda x: np.isclose(x[d],
                                                              dmin,
-                                                             atol=atol))
+                                                             rtol=0.,
+                                                             atol=atol),
+                                        boundaries_only=True)
             if len(ix) >= 1:
                 boundaries[minnames[d]] = ix
         for d in range(self.doflocs.shape[0]):
             dmax = np.max(self.doflocs[d])
             ix = self.facets_satisfying(lambda x: np.isclose(x[d],
                                                              dmax,
-                                                             atol=atol))
+                                                             rtol=0.,
+                                                             atol=atol),
+                                        boundaries_only=True)
             if len(ix) >= 1:
                 boundaries[maxnames[d]] = ix
 
